@@ -252,6 +252,41 @@ def h_driver(ctx, pname, rec, driver, intx=False):
         ctx.fact(False, '%s raised %s: %s' % (driver, type(e).__name__, last[-1][:200] if last else ''))
 
 
+def h_input_kept(ctx, driver):
+    """a program that writes into its independent variable (x[0] = x[0]*x[1]; ...): every driver
+    leaves the caller's array as it was and returns the same result when called again with it"""
+    algopy = symx.load_algopy()
+    from .common import mk_array
+    R = np.array([ctx.var('r%d' % i) for i in range(3)], dtype=object)
+    Xv = np.array([ctx.var('x%d' % i) for i in range(3)], dtype=object)
+
+    def prog(x):
+        x[0] = x[0] * x[1]
+        x[2] = x[2] * x[0]
+        return algopy.sum(x * x)
+    cg = algopy.CGraph()
+    fx = algopy.Function(mk_array(ctx, R))
+    fy = prog(fx)
+    cg.trace_off()
+    cg.independentFunctionList = [fx]
+    cg.dependentFunctionList = [fy]
+    a = mk_array(ctx, Xv)
+    call = {'gradient': lambda: cg.gradient(a), 'jacobian': lambda: cg.jacobian(a), 'hessian': lambda: cg.hessian(a),
+            'vec_jac': lambda: cg.vec_jac(np.array([1.0]), a)}[driver]
+    first = np.array(plain(np.asarray(call(), dtype=object)), dtype=object).copy()
+    ctx.eq(plain(np.asarray(a, dtype=object)), Xv, 'the point handed to %s is unchanged' % driver)
+    second = np.array(plain(np.asarray(call(), dtype=object)), dtype=object)
+    ctx.eq(second, first, 'second call of %s with the same array == first call' % driver)
+    # reference: derivatives of the direct evaluation
+    x0, x1, x2 = Xv
+    f = lambda u0, u1, u2: (u0 * u1) ** 2 + u1 ** 2 + (u2 * u0 * u1) ** 2
+    if driver in ('gradient', 'jacobian', 'vec_jac'):
+        if ctx.mode == 'sym':
+            ref = diff.d([S.lift(f(x0, x1, x2))], {})
+        g = [2 * x0 * x1 * x1 + 2 * x2 * x2 * x0 * x1 * x1, 2 * x0 * x0 * x1 + 2 * x1 + 2 * x2 * x2 * x0 * x0 * x1, 2 * x2 * x0 * x0 * x1 * x1]
+        ctx.eq(first.ravel(), np.array(g, dtype=object), '%s of a program that writes into its input' % driver)
+
+
 def units(tier, seed):
     out = []
     opts = {'property': PROP, 'float_tol': 5e-5, 'path_budget': 200}
@@ -294,6 +329,8 @@ def units(tier, seed):
             out.append(Unit('C04/%s/%s/rec=%s' % (prog.name, drv, recs[k % 3]), 'symx.props.c04', 'h_driver',
                             {'pname': prog.name, 'rec': recs[k % 3], 'driver': drv}, dict(opts)))
         k += 1
+    for drv in ('gradient', 'jacobian', 'hessian', 'vec_jac'):
+        out.append(Unit('C04/program writing into its independent variable/%s called twice with one array' % drv, 'symx.props.c04', 'h_input_kept', {'driver': drv}, dict(opts)))
     nrand = 6 if tier == 'quick' else 150
     for i in range(nrand):
         name = 'random(seed=%d,len=%d)' % (7000 + 1000 * seed + i, 3 + i % 5)
